@@ -15,7 +15,7 @@ META = {
                    "IdCert::validate_ee_at and the embedded CRL's validation: no success path avoids the sid and digest "
                    "guards, signature verification of (signed attributes | EE certificate | CRL) under (EE key | peer key | "
                    "peer key), validity, AKI agreement when present, the not-a-CA guard and the revocation lookup; the "
-                   "signature input covers all signed attributes in DER for every size (abstract interpretation).",
+                   "signature input covers all signed attributes in DER for every size (abstract interpretation); a created message gives the embedded CRL exactly the validity window of the EE certificate.",
     "not_decided": ["validates for every time within validity and no other key (quantified over runtime values)",
                     "acceptance of every conforming message of an independent encoder", "the cryptography"],
     "trusted_base": ["aws-lc-rs verify_sig/digest", "bcder decode combinators propagate closure errors"],
